@@ -11,6 +11,7 @@ import (
 
 	"github.com/pentops/j5/gen/j5/client/v1/client_j5pb"
 	"github.com/pentops/j5/gen/j5/source/v1/source_j5pb"
+	"github.com/pentops/j5/internal/bcl/internal/verif/attrx"
 	"github.com/pentops/j5/internal/bcl/internal/verif/j5sgen"
 	"github.com/pentops/j5/internal/bcl/internal/verif/j5sx"
 	"github.com/pentops/j5/internal/bcl/internal/verif/jx"
@@ -32,7 +33,59 @@ func laneCase(raw json.RawMessage) ([]vf.Failure, error) {
 	return check(&b), nil
 }
 
-var lanes = map[string]vf.LaneFunc{"pipeline": laneCase, "recursive": laneCase, "kinds": laneCase}
+var lanes = map[string]vf.LaneFunc{"pipeline": laneCase, "recursive": laneCase, "kinds": laneCase, "attributes": laneAttr}
+
+// attrCase: one source file accepted by the compiler (attrx), no model.
+type attrCase struct {
+	File string `json:"file"`
+	Text string `json:"text"`
+}
+
+func laneAttr(raw json.RawMessage) ([]vf.Failure, error) {
+	var c attrCase
+	if err := json.Unmarshal(raw, &c); err != nil {
+		return nil, err
+	}
+	fails, _ := runStages(&j5sx.Bundle{Files: map[string]string{c.File: c.Text}}, []string{j5sx.PackageOf(c.File)})
+	return crashesOnly(fails), nil
+}
+
+// crashesOnly keeps panics and hangs. The attribute lane leaves C02's documented
+// language (which C16 quantifies over): what the compiler accepts there may be
+// semantically incomplete - an entity annotation without a part, an enum without a
+// name - and a stage that answers with an error is within its rights. None may
+// crash.
+func crashesOnly(fails []vf.Failure) []vf.Failure {
+	var out []vf.Failure
+	for _, f := range dedupe(fails) {
+		if strings.Contains(f.Key, "|panic|") || strings.Contains(f.Key, "|hang|") || strings.HasPrefix(f.Key, "panic|") || strings.HasPrefix(f.Key, "hang|") {
+			out = append(out, f)
+		}
+	}
+	return out
+}
+
+// TestAttributes: a generated package with one attribute of the language definition
+// that the valid-program generator never writes (attrx), kept only if the compiler
+// accepts it. Oracle: no stage crashes or hangs (see crashesOnly).
+func TestAttributes(t *testing.T) {
+	r := vf.Start(t, prop, "attributes")
+	rapid.Check(t, func(t *rapid.T) {
+		a, ok := attrx.Draw(t)
+		if !ok || !a.Accepted {
+			r.Discard()
+			return
+		}
+		c := attrCase{File: a.File, Text: a.Text}
+		r.Eval(a.Depth > 0, vf.Hash(a.Text), a.Classes...)
+		if a.Depth >= 2 && r.WantSample() {
+			r.Sample(map[string]string{"block": a.BlockHead, "statement": a.Statement})
+		}
+		r.Journal(c)
+		fails, _ := runStages(&j5sx.Bundle{Files: map[string]string{c.File: c.Text}}, []string{a.Package})
+		r.Judge(t, c, crashesOnly(fails))
+	})
+}
 
 func TestReplay(t *testing.T) {
 	if !vf.RunReplayMode(t, prop, lanes) {
@@ -138,18 +191,19 @@ func names(fs []*j5sgen.Field, skip map[string]bool) []string {
 	return out
 }
 
-func check(b *j5sgen.Bundle) (fails []vf.Failure) {
-	src := &j5sx.Bundle{Files: b.Render()}
+// runStages takes sources through every stage of the pipeline: compile, print,
+// source image, source API, client API, its J5 JSON rendering, OpenAPI.
+func runStages(src *j5sx.Bundle, pkgs []string) (fails []vf.Failure, capi *client_j5pb.API) {
 	texts := map[string]string{}
-	for _, p := range b.Packages {
-		files, err := j5sx.Compile(src, p.Name)
+	for _, p := range pkgs {
+		files, err := j5sx.Compile(src, p)
 		if err != nil {
-			return []vf.Failure{vf.Failf("compile|error", "package %s does not compile (C07's verdict): %v", p.Name, err)}
+			return []vf.Failure{vf.Failf("compile|error", "package %s does not compile (C07's verdict): %v", p, err)}, nil
 		}
 		for _, f := range files {
 			tx, err := j5sx.Print(f)
 			if err != nil {
-				return []vf.Failure{vf.Failf("print|error", "PrintFile %s: %v (C05's verdict)", f.Path(), err)}
+				return []vf.Failure{vf.Failf("print|error", "PrintFile %s: %v (C05's verdict)", f.Path(), err)}, nil
 			}
 			texts[f.Path()] = tx
 		}
@@ -169,18 +223,17 @@ func check(b *j5sgen.Bundle) (fails []vf.Failure) {
 	}
 	var img *source_j5pb.SourceImage
 	if !stage("ReadFSImage", func() (err error) { img, _, err = j5sx.ReadImage(texts); return }) {
-		return fails
+		return fails, nil
 	}
-	for _, p := range b.Packages {
-		img.Packages = append(img.Packages, &source_j5pb.PackageInfo{Name: p.Name})
+	for _, p := range pkgs {
+		img.Packages = append(img.Packages, &source_j5pb.PackageInfo{Name: p})
 	}
 	var api *source_j5pb.API
 	if !stage("APIFromImage", func() (err error) { api, err = structure.APIFromImage(img); return }) {
-		return fails
+		return fails, nil
 	}
-	var capi *client_j5pb.API
 	if !stage("APIFromSource", func() (err error) { capi, err = j5client.APIFromSource(api); return }) {
-		return fails
+		return fails, nil
 	}
 	stage("ProtoToJSON(client API)", func() error {
 		out, err := codec.NewCodec().ProtoToJSON(capi.ProtoReflect())
@@ -206,6 +259,18 @@ func check(b *j5sgen.Bundle) (fails []vf.Failure) {
 		}
 		return nil
 	})
+	return fails, capi
+}
+
+func check(b *j5sgen.Bundle) (fails []vf.Failure) {
+	var pkgs []string
+	for _, p := range b.Packages {
+		pkgs = append(pkgs, p.Name)
+	}
+	fails, capi := runStages(&j5sx.Bundle{Files: b.Render()}, pkgs)
+	if capi == nil {
+		return fails
+	}
 
 	// content oracle
 	cpkgs := map[string]*client_j5pb.Package{}
